@@ -38,6 +38,9 @@ var frozenFacts = map[string]facts{
 	"dkls23-softspoken": {sequential: true, firstDet: true, consDet: true},
 	"dkls23-bbot":       {sequential: true, firstDet: true, consDet: true},
 	"lindell17-sign":    {sequential: true, firstDet: true, consDet: true},
+	// documented concurrent reads of the caller's reader (README of cggmp21/signing): nothing is asserted
+	// that needs a reproducible run
+	"cggmp21": {sequential: false, firstDet: false, consDet: false},
 }
 
 func fixedSeeds(sc *scenario, salt uint64) map[proto.ID]uint64 {
